@@ -839,6 +839,21 @@ example :
     (execSlowW false P codec64 warm .has {}).out = .has false ∧ (step codec64 warm .has {}).out = .has true := by
   decide
 
+/-- **Everything else in the two anchored files** (regenerated by the two translators on every run): `typedvalue.go`
+declares exactly the constructor, the accessor and the six translated functions, `typedstore.go` exactly the constructor,
+the accessor and the eight translated methods — a new function breaks this obligation; the constructors return a composite
+literal that gives every listed field the parameter of its own name and initialises nothing else, so a new `TypedValue`
+starts with both cache pointers nil (the model's `fresh`) and an unlocked mutex, a new `TypedStore` holds nothing but the
+store and the four codec functions; `KVStore()` returns the store field.  With `C06_code_refines_model` and
+`C06_store_code_refines_model` the whole anchored code of C06 is derived from the source. -/
+theorem C06_code_whole_files :
+    Hive.Gen.C06Code.decls = ["NewTypedValue", "KVStore", "Get", "Has", "Compute", "Set", "Delete", "cachedValue"] ∧
+    Hive.Gen.C06StoreCode.decls =
+      ["NewTypedStore", "KVStore", "Get", "Has", "Set", "Delete", "Iterate", "IterateKeys", "DeletePrefix", "Clear"] ∧
+    ctorOk ["kv", "keyBytes", "vToBytes", "bytesToV"] Hive.Gen.C06Code.ctor = true ∧
+    ctorOk ["kv", "keyToBytes", "bytesToKey", "valueToBytes", "bytesToValue"] Hive.Gen.C06StoreCode.ctor = true ∧
+    Hive.Gen.C06Code.accessor = "kv" ∧ Hive.Gen.C06StoreCode.accessor = "kv" := by decide
+
 /-- The walk is not vacuous: it rejects a body that inspects the cache before taking the lock, and one that
 returns with the lock held. -/
 example : lockOk (.seq (.cached 1 2) (.seq (.sync .lock) (.seq (.sync .deferUnlock) (.ret [])))) = false ∧
